@@ -74,6 +74,22 @@ class Canon:
                             elif isinstance(v, ast.BoolOp) and isinstance(v.op, ast.Or) \
                                     and isinstance(v.values[0], ast.Name) and v.values[0].id in allp:
                                 self.field_map[t.attr] = 'C%d' % allp.index(v.values[0].id)
+                            else:
+                                # an element-wise normalised copy of the parameter (`[item.lower() for item in param or ()]`): as
+                                # many elements as the parameter, each the parameter's element in its canonical spelling
+                                w = v
+                                if isinstance(w, ast.Call) and isinstance(w.func, ast.Name) and w.func.id in ('list', 'tuple', 'frozenset', 'set') and len(w.args) == 1:
+                                    w = w.args[0]
+                                if isinstance(w, (ast.ListComp, ast.GeneratorExp, ast.SetComp)) and len(w.generators) == 1 and not w.generators[0].ifs \
+                                        and isinstance(w.generators[0].target, ast.Name):
+                                    it = w.generators[0].iter
+                                    if isinstance(it, ast.BoolOp) and isinstance(it.op, ast.Or):
+                                        it = it.values[0]
+                                    e = w.elt
+                                    while isinstance(e, ast.Call) and isinstance(e.func, ast.Attribute) and e.func.attr in ('lower', 'casefold', 'strip') and not e.args:
+                                        e = e.func.value
+                                    if isinstance(it, ast.Name) and it.id in allp and isinstance(e, ast.Name) and e.id == w.generators[0].target.id:
+                                        self.field_map[t.attr] = 'C%d' % allp.index(it.id)
 
     def rename(self, expr):
         canon = self
